@@ -300,4 +300,12 @@ def run(ctx):
     check_copy(ctx, sites)
     check_nprior(ctx)
     check_api(ctx)
+    ctx.rule("C02-PART", "file paths: batches partition the evaluated rows exactly once and in order (shared implementation with C16), so rows come back in evaluation order.")
+    from .C16 import check_batch_tasks, check_run_worker
+    from .C07 import _Relabel
+    check_batch_tasks(_Relabel(ctx, {"C16-P": "C02-PART"}))
+    check_run_worker(_Relabel(ctx, {"C16-RUN": "C02-PART"}))
+    ctx.rule("C02-UNPACK", "the returned table is built from the kernel rows without touching the values: unpack attaches units[k] to column k unchanged (shared with C17-PACK).")
+    from .C17 import check_pack
+    check_pack(_Relabel(ctx, {"C17-PACK": "C02-UNPACK"}))
     ctx.assume("np.where(mask)[0] returns the ascending positions of True; Generator.uniform(size=n) returns n iid U[0,1) values; fancy indexing copies rows unchanged")
